@@ -369,8 +369,11 @@ impl StoryState {
             list.origins.borrow_mut().clear();
 
             for name in &origin_names {
-                let def = self.list_definitions.get_list_definition(name).unwrap();
-                if !list.origins.borrow().iter().any(|e| std::ptr::eq(e, def)) {
+                // an origin that the story does not define (a malformed story
+                // document) contributes nothing
+                if let Some(def) = self.list_definitions.get_list_definition(name)
+                    && !list.origins.borrow().iter().any(|e| std::ptr::eq(e, def))
+                {
                     list.origins.borrow_mut().push(def.clone());
                 }
             }
